@@ -34,7 +34,7 @@ PROPS = {
     },
     "C04": {
         "quick": [L("checked", 1.0), L("wrapping", 1.0)],
-        "thorough": [L("checked", 1.0), L("wrapping", 1.0), L("miri", 0.0001, workers=16)],
+        "thorough": [L("checked", 1.0), L("wrapping", 1.0), L("asan", 0.1), L("miri", 0.0001, workers=16)],
         "assumptions": COMMON_ASSUME,
         "exhaustive_notes": ["boundary grid: sizes {0..=9,16,255,256,4096} x endian x every accessor (positional and stream) x addresses {0..=size+8} u huge set x read_bytes/write_bytes length grid"],
     },
@@ -85,13 +85,13 @@ PROPS = {
     },
     "C17": {
         "quick": [L("checked", 1.0), L("wrapping", 0.125)],
-        "thorough": [L("checked", 1.0), L("wrapping", 0.125), L("miri", 0.00005, workers=8)],
+        "thorough": [L("checked", 1.0), L("wrapping", 0.125), L("asan", 0.1), L("miri", 0.00005, workers=8)],
         "assumptions": COMMON_ASSUME,
         "exhaustive_notes": ["a set with exactly one present slot, at each of the 256 positions in turn"],
     },
     "C18": {
         "quick": [L("checked", 1.0), L("wrapping", 0.125)],
-        "thorough": [L("checked", 1.0), L("wrapping", 0.125), L("miri", 0.00005, workers=8)],
+        "thorough": [L("checked", 1.0), L("wrapping", 0.125), L("asan", 0.1), L("miri", 0.00005, workers=8)],
         "assumptions": COMMON_ASSUME,
         "exhaustive_notes": ["each of the 33 optional strings and 18 typed fields present alone, and every pair of adjacent fields"],
     },
@@ -120,7 +120,7 @@ PROPS = {
     },
     "C19": {
         "quick": [L("checked", 1.0), L("wrapping", 1.0)],
-        "thorough": [L("checked", 1.0), L("wrapping", 1.0), L("miri", 0.0002, workers=16)],
+        "thorough": [L("checked", 1.0), L("wrapping", 1.0), L("asan", 1.0), L("memcheck", 0.25, workers=16), L("miri", 0.0002, workers=16)],
         "digest_rule": "checked_and_wrapping_builds_disagree",
         "assumptions": COMMON_ASSUME + ["the checked and wrapping lanes run the same seeded cases (same sharding), so per-case output digests are comparable"],
         "exhaustive_notes": ["all 65536 values of each 16-bit format", "all 65536 RGB5A3 values", "ETC1: all table pairs x flip x mode, every selector at every position for every table, every base/delta pair with sum in 0..=31, all 256 individual nibble pairs, all alpha nibbles x positions", "thorough: all 4096 CI8 sizes 1..=64 x 1..=64"],
